@@ -26,6 +26,12 @@ pub fn mk_args(use_update: bool, relaxed: bool, variant: u32) -> Args {
     }
 }
 
+/// the country lookup (a 189-arm match on the symbolic address, decided by C17) is irrelevant to the
+/// table step and cut here
+pub fn stub_country(_icao: u32) -> (&'static str, &'static str) {
+    ("cut", "??")
+}
+
 /// a light arbitrary row (isolation is structural: what matters is that NOTHING of it changes)
 fn lite_row(icao: u32) -> Plane {
     let mut p = Plane::new();
@@ -67,6 +73,7 @@ macro_rules! table_short {
         #[cfg_attr(kani, kani::stub(chrono::Utc::now, crate::verif::rt::stub_now))]
         #[cfg_attr(kani, kani::stub(crate::decoder::get_downlink_format, crate::decoder::vh::rows::stub_get_df))]
         #[cfg_attr(kani, kani::stub(crate::decoder::adsb::icao::get_icao, crate::decoder::vh::rows::stub_get_icao))]
+#[cfg_attr(kani, kani::stub(crate::decoder::country::country_icao_mask::icao_to_country, stub_country))]
         #[cfg_attr(verif_replay, test)]
         fn $name() {
             let m = frame14();
@@ -117,31 +124,35 @@ macro_rules! table_short {
             if $df == 5 {
                 vassert!(ni.squawk == Some(id13_squawk(&m)), "C03: the addressed row did not take the frame's squawk");
             }
+            if $df == 11 {
+                vassert!(ni.capability.0 == bits(&m, 6, 8) as u32, "C03: the addressed row did not take the frame's capability");
+            }
         }
     };
 }
-// @harness name=c03_table_df5 props=C03,C12,C01 tier=quick cap=1500
+// @harness name=c03_table_df5 props=C03,C12,C01 tier=thorough cap=3600
 // table step, any DF5 frame, two other rows, address existing or new, -U/-R symbolic
 table_short!(c03_table_df5, 5);
-// @harness name=c03_table_df4 props=C03,C12,C01 tier=thorough cap=1500
+// @harness name=c03_table_df4 props=C03,C12,C01 tier=thorough cap=3600
 // table step, any DF4 frame
 table_short!(c03_table_df4, 4);
-// @harness name=c03_table_df11 props=C03,C12,C01 tier=thorough cap=1500
-// table step, any DF11 frame
+// @harness name=c03_table_df11 props=C03,C12,C01 tier=thorough cap=3600
+// table step, any DF11 frame (the cheapest carrying format: isolation does not depend on the format), two other rows, address existing or new, -U/-R symbolic
 table_short!(c03_table_df11, 11);
 
-// @harness props=C19,C16 tier=quick cap=1500
-// the same DF5 frame applied to the same table under two option sets that differ in EVERY
+// @harness props=C19 tier=thorough cap=3600
+// the same DF11 frame applied to the same table under two option sets that differ in EVERY
 // presentation / logging option (-i -o -c -u -M -O) leaves identical tables; a following sweep too
 #[cfg_attr(kani, kani::proof)]
 #[cfg_attr(kani, kani::unwind(33))]
 #[cfg_attr(kani, kani::stub(chrono::Utc::now, crate::verif::rt::stub_now))]
 #[cfg_attr(kani, kani::stub(crate::decoder::get_downlink_format, crate::decoder::vh::rows::stub_get_df))]
 #[cfg_attr(kani, kani::stub(crate::decoder::adsb::icao::get_icao, crate::decoder::vh::rows::stub_get_icao))]
+#[cfg_attr(kani, kani::stub(crate::decoder::country::country_icao_mask::icao_to_country, stub_country))]
 #[cfg_attr(verif_replay, test)]
 fn c19_table_options_neutral() {
     let m = frame14();
-    pin_df(&m, 5);
+    pin_df(&m, 11);
     let use_update = any_bool();
     let relaxed = any_bool();
     let ka = any_below(1 << 24);
